@@ -137,9 +137,8 @@ def _ctl(rng, tt):
     return rng.randint(0, 7)
   if r < 0.92:
     return rng.choice([0x1C, 0x1D])
-  if r < 0.96:
-    return rng.choice([0x84, 0x85])
-  return rng.choice([0x0C, 0x0D])
+  # (no height codes in the middle of a line of an open subtitle: EBU Tech 3264 defines 0Ch / 0Dh for teletext rows only)
+  return rng.choice([0x84, 0x85])
 
 
 def _separator(rng, tt):
